@@ -31,6 +31,8 @@ func genC01(r *RNG, tier string) []Case {
 		}
 		cs = append(cs, histCase(h, firstFile, 4, "hist-cfg"+cfg+"-from-head", nontrivial, ""))
 	}
+	// a bulk-load transaction (thousands of rows events behind one TABLE_MAP)
+	cs = append(cs, histCase(bulkHistory(r, allCfgs[r.Intn(len(allCfgs))], 3000), firstFile, 4, "bulk-transaction", true, ""))
 	return cs
 }
 
